@@ -1199,6 +1199,16 @@ func (s *ObjectStorage) DeleteOldObjectPackAndIndex(h plumbing.Hash, t time.Time
 	if err := s.dir.DeleteOldObjectPackAndIndex(h, t); err != nil {
 		return err
 	}
+	// With an age limit the pack may have been too new to delete. It is
+	// then still part of the repository and has to stay registered,
+	// otherwise the objects that live only in it become unreadable
+	// through this storage.
+	if !t.IsZero() {
+		if f, err := s.dir.ObjectPack(h); err == nil {
+			_ = f.Close()
+			return nil
+		}
+	}
 	s.muI.Lock()
 	defer s.muI.Unlock()
 
